@@ -158,6 +158,8 @@ theorem addCluster_clusters (s : Store) (name : String) (nodeNum : Nat) (cfg : C
   · exact Or.inl hc
   split at hc
   · exact Or.inl hc
+  split at hc
+  · exact Or.inl hc
   dsimp only at hc
   split at hc
   · exact Or.inl hc
